@@ -444,7 +444,11 @@ def gen_program(seed, family=None, tight=True, T=None, on_grid=True, with_main=T
             a, c2 = rng.sample(range(n), 2)
             src = info['economies'][a][rng.choice(['hh', 'gov'])]
             tgt = info['economies'][c2][rng.choice(['hh', 'gov', 'bus'])]
-            vn = 'GIFT%d' % j
+            # amount variables are local to their sector: different senders may well use the same local name
+            used = getattr(b, '_gift_names', set())
+            vn = 'GIFT' if ((src, 'GIFT') not in used and S['swarm'].random() < 0.5) else 'GIFT%d' % j
+            used.add((src, vn))
+            b._gift_names = used
             amt = path(prm, T, 0.5, 6.0, digits=2)
             b.add({'op': 'AddVariable', 'sector': src, 'name': vn, 'eqn': '0.0'})
             set_exo(b, prm, src, vn, amt)
